@@ -80,7 +80,7 @@ func runC20(c *Ctx) {
 		for _, b := range f.Blocks {
 			for _, in := range b.Instrs {
 				if call, ok := in.(*ssa.Call); ok {
-					if fn, ok := call.Common().Value.(*ssa.Function); ok && fn.String() == "sort.Float64s" {
+					if fn, ok := call.Common().Value.(*ssa.Function); ok && libName(fn) == "sort.Float64s" {
 						if isRecvField(tc.Of(call.Common().Args[0]), valuesF) {
 							sortFn = f
 						}
